@@ -146,7 +146,7 @@ class Universe:
 
 
 class Block:
-    def __init__(self, uni, bid, parent, height, slots, cb=None):
+    def __init__(self, uni, bid, parent, height, slots, cb=None, fill=0):
         '''slots: regular tx slots of the block in order (coinbase is added in front);
         cb: outputs [(script, value)] of the coinbase (default: 50 to the miner script).'''
         self.bid = bid
@@ -156,6 +156,10 @@ class Block:
         cb_slot, cb_raw = uni.coinbase(bid, height, cb)
         self.slots = [cb_slot] + list(slots)
         raws = [cb_raw] + [uni.raw[s] for s in slots]
+        # filler: generation-like transactions (no prevouts to resolve), unique per block and position
+        self.fill = [ser_tx([(ZERO, 0xffffffff, b'fill' + struct.pack('<HI', bid, k), 0)], [(1 + k, SCRIPTS[3])], k)
+                     for k in range(fill)]
+        raws += self.fill
         self.tx_hashes = [dsha(r) for r in raws]
         prev = parent.hash if parent is not None else ZERO
         self.header = (struct.pack('<I', 1) + prev + merkle_root(self.tx_hashes)
@@ -174,10 +178,10 @@ class Tree:
         self.by_hex = {}
         self.add(0, None, [])
 
-    def add(self, bid, parent_bid, slots, cb=None):
+    def add(self, bid, parent_bid, slots, cb=None, fill=0):
         parent = self.blocks[parent_bid] if parent_bid is not None else None
         height = parent.height + 1 if parent else 0
-        b = Block(self.uni, bid, parent, height, slots, cb)
+        b = Block(self.uni, bid, parent, height, slots, cb, fill)
         self.blocks[bid] = b
         self.by_hex[b.hex_hash] = b
         return b
